@@ -1321,21 +1321,21 @@ func (schema *Schema) visitXOFOperations(settings *schemaValidationSettings, val
 
 				discriminatorValString, okcheck := discriminatorVal.(string)
 				if !okcheck {
-					return &SchemaError{
+					return markSchemaErrorKey(&SchemaError{
 						Value:       discriminatorVal,
 						Schema:      schema,
 						SchemaField: "discriminator",
 						Reason:      fmt.Sprintf("value of discriminator property %q is not a string", pn),
-					}, false
+					}, pn), false
 				}
 
 				if discriminatorRef, okcheck = schema.Discriminator.Mapping[discriminatorValString]; len(schema.Discriminator.Mapping) > 0 && !okcheck {
-					return &SchemaError{
+					return markSchemaErrorKey(&SchemaError{
 						Value:       discriminatorVal,
 						Schema:      schema,
 						SchemaField: "discriminator",
 						Reason:      fmt.Sprintf("discriminator property %q has invalid value", pn),
-					}, false
+					}, pn), false
 				}
 			}
 		}
